@@ -264,7 +264,7 @@ fn exec_table_op<K: Key + 'static, V: Value + 'static>(t: &mut Table<K, V>, op: 
     }
 }
 
-fn exec<K: Key + 'static, V: Value + 'static>(prog: &CProgram, cfg: &Config, mk: &mut Markers) -> String {
+fn exec<K: Key + 'static, V: Value + 'static>(prog: &CProgram, cfg: &Config, mk: &mut Markers, out: &mut String) {
     let def: TableDefinition<K, V> = TableDefinition::new("t");
     let backend = RecBackend::new();
     backend.0.lock().unwrap().record = false;
@@ -272,7 +272,6 @@ fn exec<K: Key + 'static, V: Value + 'static>(prog: &CProgram, cfg: &Config, mk:
     builder.verif_set_page_size(cfg.page_size);
     if let Some(rs) = cfg.region_size { builder.verif_set_region_size(rs); }
     if let Some(cs) = cfg.cache_size { builder.set_cache_size(cs); }
-    let mut out = String::new();
     writeln!(out, "C {}", prog.id).unwrap();
     let mut db = builder.create_with_backend(backend.handle()).unwrap();
     for txn in &prog.txns {
@@ -282,7 +281,7 @@ fn exec<K: Key + 'static, V: Value + 'static>(prog: &CProgram, cfg: &Config, mk:
             let mut t = w.open_table(def).unwrap();
             for st in &txn.steps {
                 match st {
-                    Step::Table(op) => exec_table_op::<K, V>(&mut t, op, &mut out),
+                    Step::Table(op) => exec_table_op::<K, V>(&mut t, op, out),
                     Step::Session("W", lower, b, ops, close) => {
                         let line = run_mut_session::<K, V>(&mut t, *lower, b, ops, *close, mk);
                         writeln!(out, "{line}").unwrap();
@@ -296,8 +295,8 @@ fn exec<K: Key + 'static, V: Value + 'static>(prog: &CProgram, cfg: &Config, mk:
             }
         }
         match txn.end {
-            End::Commit => { w.commit().unwrap(); dump::<K, V>(&db, def, "K", &mut out); }
-            End::Abort => { w.abort().unwrap(); dump::<K, V>(&db, def, "A", &mut out); }
+            End::Commit => { w.commit().unwrap(); dump::<K, V>(&db, def, "K", out); }
+            End::Abort => { w.abort().unwrap(); dump::<K, V>(&db, def, "A", out); }
         }
         if let Some((lower, b, ops)) = &txn.ro_session {
             let r = db.begin_read().unwrap();
@@ -316,25 +315,28 @@ fn exec<K: Key + 'static, V: Value + 'static>(prog: &CProgram, cfg: &Config, mk:
         if txn.reopen {
             drop(db);
             db = builder.create_with_backend(backend.handle()).unwrap();
-            dump::<K, V>(&db, def, "O", &mut out);
+            dump::<K, V>(&db, def, "O", out);
         }
     }
-    out
 }
 
 fn run_prog(prog: &CProgram, cfg: &Config, mk: &mut Markers) -> String {
+    // the output produced before a panic is kept: the first differing line is then the operation that panicked
+    let mut out = String::new();
     let r = catch(|| match (prog.kt, prog.vt) {
-        (KType::Bytes, VType::Bytes) => exec::<&[u8], &[u8]>(prog, cfg, mk),
-        (KType::U64, VType::Bytes) => exec::<u64, &[u8]>(prog, cfg, mk),
-        (KType::Str, VType::U64) => exec::<&str, u64>(prog, cfg, mk),
-        (KType::Str, VType::Bytes) => exec::<&str, &[u8]>(prog, cfg, mk),
-        (KType::Bytes, VType::U64) => exec::<&[u8], u64>(prog, cfg, mk),
-        (KType::U64, VType::U64) => exec::<u64, u64>(prog, cfg, mk),
+        (KType::Bytes, VType::Bytes) => exec::<&[u8], &[u8]>(prog, cfg, mk, &mut out),
+        (KType::U64, VType::Bytes) => exec::<u64, &[u8]>(prog, cfg, mk, &mut out),
+        (KType::Str, VType::U64) => exec::<&str, u64>(prog, cfg, mk, &mut out),
+        (KType::Str, VType::Bytes) => exec::<&str, &[u8]>(prog, cfg, mk, &mut out),
+        (KType::Bytes, VType::U64) => exec::<&[u8], u64>(prog, cfg, mk, &mut out),
+        (KType::U64, VType::U64) => exec::<u64, u64>(prog, cfg, mk, &mut out),
     });
-    match r {
-        Ok(s) => s,
-        Err(msg) => format!("C {}\nPANIC {}\n", prog.id, msg.replace('\n', " ")),
+    if let Err(msg) = r {
+        if !out.starts_with("C ") { out = format!("C {}\n", prog.id); }
+        if !out.ends_with('\n') { out.push('\n'); }
+        out.push_str(&format!("PANIC {}\n", msg.replace('\n', " ")));
     }
+    out
 }
 
 // ------------------------------------------------------------------------------------------------ generation
